@@ -14,4 +14,245 @@ theorem normalize_idem (f : CaseFns) (hf : f.Ok) (s : Strategy) (i : Ident) :
     · simp [hu, hf.lower_idem]
   · simp [h]
 
+/-! ### sources -/
+
+theorem mkEnv_aliased (g : Gen) (σ : Schema) (outs : List (List String)) :
+    ∀ (srcs srcs' : List Src) (env0 : List (Bool × String × List String)),
+      mkEnv g σ outs srcs = some (srcs', env0) →
+      srcs'.map (·.alias) = env0.map (fun e => some e.2.1) := by
+  intro srcs
+  induction srcs with
+  | nil => intro srcs' env0 h; simp [mkEnv] at h; obtain ⟨rfl, rfl⟩ := h; rfl
+  | cons s rest ih =>
+    intro srcs' env0 h
+    simp only [mkEnv] at h
+    split at h
+    · rename_i a cols rs env hn hc hr
+      simp at h
+      obtain ⟨rfl, rfl⟩ := h
+      simp [ih rs env hr]
+    · simp at h
+
+/-! ### the pipeline reaches `check` -/
+
+theorem qualifyScope_ok (g : Gen) (σ : Schema) (outs : List (List String)) (s s' : Scope)
+    (h : qualifyScope g σ outs s = .ok s') :
+    ∃ srcs' env0, mkEnv g σ outs s.srcs = some (srcs', env0)
+      ∧ hasDup (envNames (refOrder env0)) = false
+      ∧ buildScope g (refOrder env0) srcs' s = .ok s'
+      ∧ validate (envNames (refOrder env0)) s' = true := by
+  unfold qualifyScope at h
+  split at h
+  · simp at h
+  · rename_i srcs' env0 hm
+    split at h
+    · simp at h
+    · rename_i hd
+      split at h
+      · rename_i s'' hb
+        unfold check at h
+        split at h
+        · rename_i hv
+          simp at h
+          subst h
+          exact ⟨srcs', env0, hm, by simpa using hd, hb, hv⟩
+        · simp at h
+      · simp at h
+
+theorem bind_ok {ε α β} {x : Except ε α} {f : α → Except ε β} {b : β}
+    (h : (x >>= f) = .ok b) : ∃ a, x = .ok a ∧ f a = .ok b := by
+  cases x with
+  | error e => simp [bind, Except.bind] at h
+  | ok a => exact ⟨a, rfl, by simpa [bind, Except.bind] using h⟩
+
+theorem buildScope_shape (g : Gen) (env : Env) (srcs' : List Src) (s s' : Scope)
+    (h : buildScope g env srcs' s = .ok s') : s'.srcs = srcs' ∧ s'.outer = [] := by
+  unfold buildScope at h
+  obtain ⟨_, _, h⟩ := bind_ok h
+  obtain ⟨_, _, h⟩ := bind_ok h
+  obtain ⟨_, _, h⟩ := bind_ok h
+  obtain ⟨_, _, h⟩ := bind_ok h
+  obtain ⟨_, _, h⟩ := bind_ok h
+  obtain ⟨_, _, h⟩ := bind_ok h
+  split at h
+  · simp at h
+  · obtain ⟨_, _, h⟩ := bind_ok h
+    obtain ⟨_, _, h⟩ := bind_ok h
+    simp [pure, Except.pure] at h
+    subst h
+    exact ⟨rfl, rfl⟩
+
+/-! ### stars -/
+
+def GoodSrc (e : String × List String) : Prop :=
+  e.2.isEmpty = false ∧ e.2.contains "*" = false ∧ hasDup e.2 = false
+
+theorem expandStarTables_ok (exc : List String) :
+    ∀ env : Env, (∀ e ∈ env, GoodSrc e) →
+      expandStarTables exc env = .ok (env.flatMap (fun e => starCols e.1 exc e.2)) := by
+  intro env
+  induction env with
+  | nil => intro _; rfl
+  | cons e rest ih =>
+    intro hg
+    obtain ⟨t, cols⟩ := e
+    have h1 := hg (t, cols) (by simp)
+    obtain ⟨ha, hb, hc⟩ := h1
+    simp only at ha hb hc
+    have := ih (fun e he => hg e (by simp [he]))
+    have hb' : ¬ "*" ∈ cols := by simpa using hb
+    simp [expandStarTables, ha, hb', hc, this]
+
+theorem qualifyOutputs_cols (cn : Nat → String) :
+    ∀ (l : List (String × String)) (i : Nat), (∀ p ∈ l, p.2 ≠ "") →
+      qualifyOutputs cn i [] (l.map (fun p => Proj.item (.col (some p.1) p.2) none))
+        = l.map (fun p => Proj.item (.col (some p.1) p.2) (some p.2)) := by
+  intro l
+  induction l with
+  | nil => intro i _; rfl
+  | cons p rest ih =>
+    intro i hne
+    have hp : p.2 ≠ "" := hne p (by simp)
+    have := ih (i + 1) (fun q hq => hne q (by simp [hq]))
+    simp [List.map, qualifyOutputs, outAlias, exprName, this, hp]
+
+theorem refOrder_names (l : List (Bool × String × List String)) (n : String) :
+    n ∈ envNames (refOrder l) ↔ ∃ e ∈ l, e.2.1 = n := by
+  simp only [envNames, refOrder, List.map_append, List.map_map, List.mem_append, List.mem_map, List.mem_filter,
+    Function.comp]
+  constructor
+  · rintro (⟨e, ⟨he, _⟩, rfl⟩ | ⟨e, ⟨he, _⟩, rfl⟩) <;> exact ⟨e, he, rfl⟩
+  · rintro ⟨e, he, rfl⟩
+    cases hb : e.1
+    · exact Or.inl ⟨e, ⟨he, by simp [hb]⟩, rfl⟩
+    · exact Or.inr ⟨e, ⟨he, by simp [hb]⟩, rfl⟩
+
+/-- what `qualify_complete` promises about one qualified scope -/
+def Complete (s' : Scope) : Prop :=
+  (∀ src ∈ s'.srcs, src.alias.isSome = true) ∧ s'.outer = []
+  ∧ ∃ names : List String, validate names s' = true ∧ ∀ n ∈ names, some n ∈ s'.srcs.map (·.alias)
+
+theorem qualifyScope_complete (g : Gen) (σ : Schema) (outs : List (List String)) (s s' : Scope)
+    (h : qualifyScope g σ outs s = .ok s') : Complete s' := by
+  obtain ⟨srcs', env0, hm, _, hb, hv⟩ := qualifyScope_ok g σ outs s s' h
+  obtain ⟨hs, ho⟩ := buildScope_shape g _ srcs' s s' hb
+  have ha := mkEnv_aliased g σ outs s.srcs srcs' env0 hm
+  refine ⟨?_, ho, envNames (refOrder env0), hv, ?_⟩
+  · intro src hsrc
+    rw [hs] at hsrc
+    have : src.alias ∈ srcs'.map (·.alias) := List.mem_map.mpr ⟨src, hsrc, rfl⟩
+    rw [ha] at this
+    obtain ⟨e, _, he⟩ := List.mem_map.mp this
+    rw [← he]; rfl
+  · intro n hn
+    obtain ⟨e, he, rfl⟩ := (refOrder_names env0 n).mp hn
+    rw [hs, ha]
+    exact List.mem_map.mpr ⟨e, he, rfl⟩
+
+theorem qualifyFrom_complete (g : Gen) (σ : Schema) :
+    ∀ (q : List Scope) (outs : List (List String)) (q' : List Scope),
+      qualifyFrom g σ outs q = .ok q' → q'.length = q.length ∧ ∀ s' ∈ q', Complete s' := by
+  intro q
+  induction q with
+  | nil => intro outs q' h; simp [qualifyFrom] at h; subst h; simp
+  | cons s rest ih =>
+    intro outs q' h
+    unfold qualifyFrom at h
+    obtain ⟨s', hs', h⟩ := bind_ok h
+    obtain ⟨rest', hr, h⟩ := bind_ok h
+    simp [pure, Except.pure] at h
+    subst h
+    obtain ⟨hl, hc⟩ := ih _ _ hr
+    refine ⟨by simp [hl], ?_⟩
+    intro x hx
+    simp at hx
+    rcases hx with rfl | hx
+    · exact qualifyScope_complete g σ outs s x hs'
+    · exact hc x hx
+
+/-! ### second-pass identities of the stages C, D, E -/
+
+theorem expand_fixed (env : Env) (m : AMap) (cl : Clause) (names : List String) :
+    ∀ (e : Expr) (ctx : Ctx), visible names [] e = true → expand env m cl ctx e = e := by
+  intro e
+  induction e with
+  | col t n =>
+    intro ctx h
+    cases t with
+    | none => simp [visible] at h
+    | some t => rfl
+  | lit k => intro _ _; rfl
+  | bin op l r ihl ihr =>
+    intro ctx h
+    simp only [visible, Bool.and_eq_true] at h
+    simp [expand, ihl _ h.1, ihr _ h.2]
+  | paren e ih =>
+    intro ctx h
+    simp only [visible] at h
+    simp [expand, ih _ h]
+
+def AllAliased : List Proj → Prop
+  | [] => True
+  | .item _ (some _) :: ps => AllAliased ps
+  | _ :: _ => False
+
+theorem qualifyOutputs_fixed (cn : Nat → String) :
+    ∀ (ps : List Proj) (i : Nat), AllAliased ps → qualifyOutputs cn i [] ps = ps := by
+  intro ps
+  induction ps with
+  | nil => intro _ _; rfl
+  | cons p rest ih =>
+    intro i h
+    cases p with
+    | star t exc => simp [AllAliased] at h
+    | item e a =>
+      cases a with
+      | none => simp [AllAliased] at h
+      | some a =>
+        simp only [AllAliased] at h
+        simp [qualifyOutputs, ih _ h]
+
+theorem allAliased_noStar : ∀ ps : List Proj, AllAliased ps → hasStar ps = false := by
+  intro ps
+  induction ps with
+  | nil => intro _; rfl
+  | cons p rest ih =>
+    intro h
+    cases p with
+    | star t exc => simp [AllAliased] at h
+    | item e a =>
+      cases a with
+      | none => simp [AllAliased] at h
+      | some a => simp only [AllAliased] at h; simp [hasStar, ih h]
+
+theorem expandStars_fixed (env : Env) :
+    ∀ ps : List Proj, AllAliased ps → expandStars env ps = .ok ps := by
+  intro ps
+  induction ps with
+  | nil => intro _; rfl
+  | cons p rest ih =>
+    intro h
+    cases p with
+    | star t exc => simp [AllAliased] at h
+    | item e a =>
+      cases a with
+      | none => simp [AllAliased] at h
+      | some a => simp only [AllAliased] at h; simp [expandStars, ih h]
+
+/-- `qualify_outputs` always produces fully aliased projections when no star is left -/
+theorem qualifyOutputs_allAliased (cn : Nat → String) :
+    ∀ (ps : List Proj) (i : Nat) (outer : List String), hasStar ps = false →
+      AllAliased (qualifyOutputs cn i outer ps) := by
+  intro ps
+  induction ps with
+  | nil => intro _ _ _; trivial
+  | cons p rest ih =>
+    intro i outer h
+    cases p with
+    | star t exc => simp [hasStar] at h
+    | item e a =>
+      simp only [hasStar] at h
+      simp only [qualifyOutputs, AllAliased]
+      exact ih _ _ h
+
 end SqlglotModel.Qualify
